@@ -141,6 +141,18 @@ def build_harness(release=False):
     return exe, ""
 
 
+def build_dis():
+    """builds rspirv-dis from /repo's working tree; returns (exe, error)"""
+    tgt = os.path.join(CACHE, "target-dis")
+    with Lock("lock-dis"):
+        rc, out, dt = run(["cargo", "build", "--offline", "--quiet", "-p", "rspirv-dis"], cwd=REPO,
+                          env={"CARGO_TARGET_DIR": tgt, "RUSTFLAGS": "-Awarnings"}, timeout=1500)
+    exe = os.path.join(tgt, "debug", "rspirv-dis")
+    if rc != 0 or not os.path.exists(exe):
+        return None, out
+    return exe, ""
+
+
 # ------------------------------------------------------------------ Coq
 def coq_makefile():
     mk = os.path.join(COQ, "Makefile")
